@@ -418,6 +418,10 @@ class Model3d(MagicProperties):
                 trace = Trace3d()
             if not isinstance(trace, Trace3d):
                 trace = validate_property_class(trace, "data", Trace3d, self)
+            elif trace not in getattr(self, "_data", []):
+                # a trace object coming from elsewhere (e.g. the `as_dict()` of another object's
+                # style) is taken over as a copy, every style owns its traces
+                trace = trace.copy()
             if updatefunc is not None:
                 trace.updatefunc = updatefunc
             trace = trace.update(kwargs)
